@@ -426,7 +426,17 @@ class Engine:
             if a == "array":
                 return ("array", ops)
             if a == "closure":
-                return ("closure", kd["path"], ops)
+                # captures by shared reference are snapshots of the captured values (they cannot change while the
+                # closure lives); captures by &mut stay pointers so that writes through them are seen
+                it_c = self.fb.items.get(kd["path"]) if hasattr(self.fb, "items") else None
+                ups = (it_c.get("upvars") if it_c is not None else None) or []
+                ops2 = []
+                for i, v in enumerate(ops):
+                    ty = ups[i] if i < len(ups) else ""
+                    if isinstance(v, tuple) and v and v[0] == "ref" and ty.startswith("&") and not ty.startswith("&mut"):
+                        v = self.value_of(st, v)
+                    ops2.append(v)
+                return ("closure", kd["path"], tuple(ops2))
             return ("agg", a, ops)
         if k == "repeat":
             v = self.operand(item, frame, st, rv["o"])
@@ -1007,6 +1017,8 @@ def fold_len(a):
             return mk_const("usize", len(a[1]))
         if a[0] == "str":
             return mk_const("usize", len(a[1].encode()))
+        if a[0] == "upd" and isinstance(a[1], str) and re.search(r"::(sort|sort_unstable|reverse)$", a[1]) and a[2] == 0:
+            return fold_len(a[3][0])    # reordering in place keeps the length
         if a[0] == "slice":
             lo, hi = a[2], a[3]
             if hi is None:
